@@ -47,3 +47,9 @@ func VerifC02NewPatternFlushWriter(w io.Writer, f VerifC02Flusher, patterns ...[
 		return nil, fmt.Errorf("newPatternFlushWriter has unknown signature %T", ctor)
 	}
 }
+
+// VerifC02HandlerWriteResponse calls the http.Handler variant's writeResponse
+// (proxy_handler.go) on a proxy without trace and modifiers.
+func VerifC02HandlerWriteResponse(rw http.ResponseWriter, res *http.Response) {
+	proxyHandler{&Proxy{}}.writeResponse(rw, res)
+}
